@@ -57,7 +57,7 @@ CHECKS.update({
         "Only Python-level yield points are scheduled deterministically; numba's lock, dask's schedulers and the prange runtime are exercised, not enumerated.", "7/C12"),
     "C15": _c("tlc-autocorr", "TLC exhaustive model check of spec/Autocorr.tla (running-sum formula = mean-filled Pearson) + TLC validation of every API/encoding/layout result against the exact rational correlation",
         "TLC checks on all series of length 3..6/7 over {missing,0,1,2,5} that the kernels' running-sum formula equals the mean-filled Pearson correlation (squared value and sign, exactly), lies in [-1,1] and is invariant under positive affine maps; a negative control shows the pinned numerator violates it. Real results of autocorr_1d (int/nodata and float/NaN), autocorr, autocorr_tyx and the accessor (both layouts, numpy and dask) are decided by TLC against the exact rational C, VarX, VarY: r^2 VarX VarY = C^2 within 1e-5, sign, zero rule, range.",
-        "float32 tolerance 1e-5 on r^2; the float64 helper autocorr_1d is allowed 1e-12 above 1.", "7/C15"),
+        "float32 tolerance 1e-5 on r^2; the unrounded float64 helper autocorr_1d is allowed 1e-9 above 1.", "7/C15"),
     "C16": _c("tlc-zonal", "TLC model check of spec/Zonal.tla (exact accumulation = contract, accumulator-width experiment) + TLC validation of do_mean / zonal.mean on run-length encoded rasters up to 2.5e7 pixels per zone",
         "TLC checks that exact accumulation equals the declarative per-zone mean and count, that rearranging pixels changes nothing, and -- with a parametric floating format -- that accumulating in the output format breaks the contract while a wide accumulator with one final rounding meets it. Real calls of do_mean and hdc.zonal.mean (float32/float64, numpy/dask) are recorded with the raster as a run-length encoded pixel stream; TLC computes the exact sum and count per (time, zone) from the runs and requires the mean within 4 ulp of the output dtype and the count exactly as the dtype can hold it, NaN/0 for empty zones.",
         "Zones up to 1e6 pixels in quick, 2.5e7 in thorough.", "7/C16"),
